@@ -35,6 +35,7 @@ typedef struct kobj {
 typedef struct { kobj_t *k; int origin; uint32_t gen; } fdent_t;
 static fdent_t fdt[TASK_MAX][SIMFD_MAX - SIMFD_BASE];
 static uint32_t gen_counter;
+uint32_t simfd_gen_now(void) { return gen_counter; }      /* generations above this value were opened later */
 static long default_rxcap = 4096;
 #define MAXPATHS 32
 static struct { char path[108]; kobj_t *owner; } bound_paths[MAXPATHS];
@@ -48,9 +49,16 @@ static int conn_counter;
 #define MAXCONNS 64
 static kobj_t *conn_end[MAXCONNS][2];
 
-static int is_sim(int fd) { return fd >= SIMFD_BASE && fd < SIMFD_MAX; }
-static fdent_t *ent(int fd) { return is_sim(fd) ? &fdt[task_current()][fd - SIMFD_BASE] : NULL; }
-static fdent_t *ent_t(int task, int fd) { return is_sim(fd) ? &fdt[task][fd - SIMFD_BASE] : NULL; }
+/* descriptor numbers: normally SIMFD_BASE upwards, so that any other number passes through to the real call.  A run may move the
+   base to 0 (simfd_set_base): a process whose standard descriptors are closed gets 0, 1 and 2 from socket(), accept() and dup(),
+   and `fd > 0` is not the same test as `fd >= 0`.  The table size stays the same. */
+static int fd_base = SIMFD_BASE;
+static int select_eintr_at, select_sleeps;      /* the k-th pure-sleep select() of the run is interrupted (0 = never) */
+void simfd_set_select_eintr(int k) { select_eintr_at = k; select_sleeps = 0; }
+void simfd_set_base(int b) { fd_base = b == 0 ? 0 : SIMFD_BASE; }
+static int is_sim(int fd) { return fd >= fd_base && fd < fd_base + (SIMFD_MAX - SIMFD_BASE); }
+static fdent_t *ent(int fd) { return is_sim(fd) ? &fdt[task_current()][fd - fd_base] : NULL; }
+static fdent_t *ent_t(int task, int fd) { return is_sim(fd) ? &fdt[task][fd - fd_base] : NULL; }
 
 static kobj_t *knew(int type)
 {
@@ -71,6 +79,7 @@ void simfd_reset(long rxcap)
     nbound = 0;
     conn_counter = 0; simfd_progress = 0; memset(simfd_hard_error_t, 0, sizeof(simfd_hard_error_t)); memset(simfd_eagain_t, 0, sizeof(simfd_eagain_t));
     default_rxcap = rxcap > 0 ? rxcap : 4096;
+    fd_base = SIMFD_BASE; select_eintr_at = select_sleeps = 0;
 }
 
 static int fd_alloc(int task, kobj_t *k, int origin)
@@ -79,7 +88,7 @@ static int fd_alloc(int task, kobj_t *k, int origin)
         if (!fdt[task][i].k) {
             fdt[task][i].k = k; fdt[task][i].origin = origin; fdt[task][i].gen = ++gen_counter;
             k->refs++;
-            return i + SIMFD_BASE;
+            return i + fd_base;
         }
     }
     return -1;
@@ -125,7 +134,7 @@ int simfd_describe_open(int task, char *buf, size_t n)
     if (n) buf[0] = 0;
     for (int i = 0; i < SIMFD_MAX - SIMFD_BASE; i++) if (fdt[task][i].k && fdt[task][i].origin != ORG_HARNESS) {
         cnt++;
-        if (k + 32 < n) k += (size_t)snprintf(buf + k, n - k, "[fd %d from %s()]", i + SIMFD_BASE, on[fdt[task][i].origin]);
+        if (k + 32 < n) k += (size_t)snprintf(buf + k, n - k, "[fd %d from %s()]", i + fd_base, on[fdt[task][i].origin]);
     }
     return cnt;
 }
@@ -545,6 +554,14 @@ int sim_select(int nfds, fd_set *r, fd_set *w, fd_set *x, struct timeval *tv)
     if (nfds <= 0 || (!r && !w && !x)) {
         int64_t us = tv ? (int64_t)tv->tv_sec * 1000000 + tv->tv_usec : 0;
         probe_hit("select_sleep");
+        if (select_eintr_at && ++select_sleeps == select_eintr_at) {
+            /* a wait is as interruptible as a write: part of the time passes, then a signal arrives */
+            tr_printf("select sleep %lld us -> EINTR", (long long)us);
+            probe_hit("select_interrupted");
+            task_sleep_us(us / 2);
+            errno = EINTR;
+            return -1;
+        }
         tr_printf("select sleep %lld us", (long long)us);
         task_sleep_us(us);
         return 0;
@@ -634,6 +651,10 @@ FILE *simfd_cookie_stream_unreadable(void)
     if (fp) open_streams++;
     return fp;
 }
+/* send()/recv() on a stream socket are write()/read() with flags (MSG_NOSIGNAL and the like change nothing the simulation models) */
+ssize_t sim_send(int fd, const void *buf, size_t n, int flags) { if (!is_sim(fd)) return send(fd, buf, n, flags); return sim_write(fd, buf, n); }
+ssize_t sim_recv(int fd, void *buf, size_t n, int flags) { if (!is_sim(fd)) return recv(fd, buf, n, flags); return sim_read(fd, buf, n); }
+
 /* fstat() on a simulated descriptor: a regular file says so and knows its size, a byte source is a pipe, a socket a socket.
    (The pinned library never asks; a maintainer's size-hint optimisation would, and must then meet what a kernel answers.) */
 #include <sys/stat.h>
